@@ -55,3 +55,9 @@ package action
 //@   method Handler
 //@     modifies nothing
 //@     ensures result != nil
+
+// the bytes that are signed: serialisation of (type, payload, fee, memo). Assumed: serialisation of a RawTx
+// never fails and is a function of the four fields (T-SER).
+//@ assume func (*RawTx).RawBytes
+//@   modifies nothing
+//@   ensures result == rawBytesOf(*t)
